@@ -493,7 +493,7 @@ fn check_oversized(item: &str, _ctx: &Ctx) -> Outcome {
 pub fn property() -> Property {
     Property {
         id: "C15",
-        rule: "Cases: (a) exhaustively every history of length <= 3 (thorough 4) over the universe {0,1,10,65528,65529} and of length <= 3 (thorough 4) over {0,10,65529}, with operations: enter line k (two texts), bare k, \
+        rule: "Cases: (oversized_store) programs whose DATA / code / both exceed the 64K pools, then LIST / DELETE ranges and bare numbers; random histories also LOAD generated files (numbered lines in any order, repeats, bare numbers, blank lines), a missing file and a file holding a direct statement (the store must stay). (a) exhaustively every history of length <= 3 (thorough 4) over the universe {0,1,10,65528,65529} and of length <= 3 (thorough 4) over {0,10,65529}, with operations: enter line k (two texts), bare k, \
 LIST and DELETE in the forms bare, k, k-, -k, a-b (including inverted), and lines/ranges using 65530 and 70000; (b) proptest-generated histories of up to 60 operations over the whole number range with endpoints on, next to, before and after existing lines. \
 Oracle: BTreeMap<u16,String> model; after every operation the full LIST equals the model (ascending, `n text`), each ranged LIST shows exactly the lines in the inclusive range, DELETE removes exactly those, rejected forms (bare DELETE, inverted range, number > 65529) print an error and change nothing, Listing::line(n) agrees. \
 Non-trivial: a range endpoint that is not an existing line, or an operation on line 0 / 65529. Distinct by history text.",
